@@ -54,3 +54,25 @@ check('C08', 'model_checking',
       'DESIGN.md §3 C08')
 for k in CHECKS:
     NOT_YET.pop(k, None)
+
+check('C02', 'model_checking',
+      'explicit-state exploration of EM trajectories with the implementation as transition function; invariant on every edge',
+      'State = model after iteration i of one (family/options, tying, saliency, eps, K, D, F, data set, start); '
+      'transitions = EM iterations executed by the real trainers (iteration hook, cross-checked with fit(iterations=i)) '
+      'and, for cACGMM, jump edges fit(initialization=model_i, iterations=j) that must land on state i+j. The independent '
+      'mixture log-likelihood (reference densities, stored weights, saliency-weighted) must be non-decreasing on every '
+      'unguarded edge; CACGMM.log_likelihood must equal it in every state. 12 (quick) / 50 (thorough) iterations.',
+      'Generic-position data sets built from the seed (clustered / unclustered / tight), N = 4KD; quick tier is a '
+      'covering subset of the full product (stated in the evidence), thorough is the full product.',
+      'DESIGN.md §3 C02')
+check('C09', 'exploration',
+      'deviation-bounded exhaustive exploration of degenerate data x options; predicates on every traced model',
+      'All configurations with <= 2 (quick) / 3 (thorough) non-default options on every degenerate data kind '
+      '(zero / duplicated / collinear / too few frames, 1e+-150 scales) x soft and hard starts, plus the full product '
+      'model x data kind x start x iterations x covariance norm, plus regular data; every intermediate model seen by '
+      'the iteration hook is checked against the documented domain (weights, cACG eigen-structure, modes, '
+      'concentrations, covariances, Bingham eigenvalues); the single-distribution trainers on the same data.',
+      'Predicates only; an explicit exception is accepted on degenerate data and counted.',
+      'DESIGN.md §3 C09')
+for k in CHECKS:
+    NOT_YET.pop(k, None)
